@@ -1444,3 +1444,346 @@ fn st_send_pubrec_v5_handled() {
     core::mem::forget(c);
 }
 
+
+// =================================================================== recv(): framing error and one-packet-per-call (C09 F4, C19)
+fn recv_framing_error(v5: bool) {
+    let mut c = fam_client_connected(v311_or_v5(v5));
+    let x: [u8; 5] = kani::any();
+    let b: [u8; 5] = [x[0], x[1] | 0x80, x[2] | 0x80, x[3] | 0x80, x[4] | 0x80];
+    let pre = tm_of(&c);
+    let mut cur = Cursor::new(&b[..]);
+    let ev = c.recv(&mut cur);
+    monitor(pre, &ev, &c);
+    let n = ev.len();
+    assert!(cur.position() == 5, "[C09] the framing error consumes the five header bytes");
+    assert!(n == 2 + pre.send as usize + pre.resp as usize, "[C19] framing error: cancels for the armed timers, close, error");
+    assert!(is_close(&sm(&ev, n - 2)) && is_err(&sm(&ev, n - 1), MqttError::MalformedPacket), "[C09,C19] over-long Remaining Length: close request then MalformedPacket error");
+    assert!(count(&ev, is_recv) == 0, "[C05] nothing is delivered from a malformed frame");
+    core::mem::forget(ev);
+    core::mem::forget(c);
+}
+#[kani::proof]
+#[kani::unwind(8)]
+fn st_recv_framing_error_v311() {
+    recv_framing_error(false)
+}
+#[kani::proof]
+#[kani::unwind(8)]
+fn st_recv_framing_error_v5() {
+    recv_framing_error(true)
+}
+
+// two back-to-back packets in one buffer: each recv() call handles exactly one
+#[kani::proof]
+#[kani::unwind(8)]
+fn st_recv_two_packets_one_buffer() {
+    let mut c = fam_client_connected(Version::V3_1_1);
+    c.pingresp_recv_set = false;
+    let i: u16 = kani::any();
+    kani::assume(i != 0);
+    c.pid_man.register_id(i).unwrap();
+    c.pid_puback.insert(i);
+    // PINGRESP then PUBACK(i)
+    let b: [u8; 6] = [0xD0, 0, 0x40, 2, (i >> 8) as u8, i as u8];
+    let mut cur = Cursor::new(&b[..]);
+    let pre = tm_of(&c);
+    let ev1 = c.recv(&mut cur);
+    monitor(pre, &ev1, &c);
+    assert!(cur.position() == 2, "[C09] the first call stops at the first frame boundary");
+    assert!(ev1.len() == 1 && is_recv(&sm(&ev1, 0)) && c.pid_puback.contains(&i), "[C09] the first call yields the events of exactly one packet");
+    let pre2 = tm_of(&c);
+    let ev2 = c.recv(&mut cur);
+    monitor(pre2, &ev2, &c);
+    assert!(cur.position() == 6, "[C09] the second call consumes the second frame");
+    assert!(count(&ev2, |e| is_released(e, i)) == 1 && count(&ev2, is_recv) == 1, "[C09] the second packet is processed by the second call");
+    let ev3 = c.recv(&mut cur);
+    assert!(ev3.len() == 0, "[C09] an exhausted buffer yields nothing");
+    core::mem::forget(ev1);
+    core::mem::forget(ev2);
+    core::mem::forget(ev3);
+    core::mem::forget(c);
+}
+
+// =================================================================== C13 sender-side aliases vs an independent receiver model
+fn topic_of(k: u8) -> &'static str {
+    if k == 0 {
+        "a"
+    } else {
+        "b"
+    }
+}
+fn byte_of(k: u8) -> u8 {
+    if k == 0 {
+        b'a'
+    } else {
+        b'b'
+    }
+}
+
+/// v5.0 QoS0 PUBLISH with topic byte `t` (0 = empty topic) and Topic Alias property `alias`
+fn mk_pub5_alias(t: u8, alias: u16) -> Option<v5_0::GenericPublish<u16>> {
+    if t == 0 {
+        let body: [u8; 7] = [0, 0, 3, 0x23, (alias >> 8) as u8, alias as u8, 0x55];
+        let arc: crate::mqtt::common::Arc<[u8]> = crate::mqtt::common::Arc::from(&body[..]);
+        v5_0::GenericPublish::<u16>::parse(0, arc).ok().map(|x| x.0)
+    } else {
+        let body: [u8; 8] = [0, 1, t, 3, 0x23, (alias >> 8) as u8, alias as u8, 0x55];
+        let arc: crate::mqtt::common::Arc<[u8]> = crate::mqtt::common::Arc::from(&body[..]);
+        v5_0::GenericPublish::<u16>::parse(0, arc).ok().map(|x| x.0)
+    }
+}
+
+// manual alias on a PUBLISH that carries its topic: (re)binds the alias on both sides
+#[kani::proof]
+#[kani::unwind(7)]
+#[kani::stub(core::str::from_utf8, utf8_model)]
+fn st_send_publish_v5_manual_alias_bind() {
+    set_detail(true);
+    let mut c = fam_client_connected(Version::V5_0);
+    let mut tas = TopicAliasSend::new(3);
+    // receiver model: r[alias] = topic byte (0 = unbound)
+    let mut r: [u8; 4] = [0; 4];
+    // two earlier aliased publishes on this connection
+    let k1: u8 = kani::any();
+    let k2: u8 = kani::any();
+    let a1: u16 = kani::any();
+    let a2: u16 = kani::any();
+    kani::assume(k1 <= 1 && k2 <= 1 && a1 >= 1 && a1 <= 3 && a2 >= 1 && a2 <= 3);
+    tas.insert_or_update(topic_of(k1), a1);
+    r[a1 as usize] = byte_of(k1);
+    tas.insert_or_update(topic_of(k2), a2);
+    r[a2 as usize] = byte_of(k2);
+    c.topic_alias_send = Some(tas);
+    // the step: PUBLISH topic kx with alias ax (any u16 >= 1)
+    let kx: u8 = kani::any();
+    let ax: u16 = kani::any();
+    kani::assume(kx <= 1 && ax >= 1);
+    kani::cover!(ax == a2 && kx != k2, "re-binding an alias to another topic");
+    kani::cover!(ax > 3, "alias above the peer's Topic Alias Maximum");
+    let p = match mk_pub5_alias(byte_of(kx), ax) {
+        Some(p) => p,
+        None => return,
+    };
+    let pre = tm_of(&c);
+    let ev = c.process_send_v5_0_publish(p);
+    monitor(pre, &ev, &c);
+    if ax > 3 {
+        assert!(count(&ev, is_send) == 0 && count(&ev, is_any_err) == 1, "[C13] an alias above the peer's Topic Alias Maximum is never sent");
+    } else {
+        let e = sm(&ev, 0);
+        assert!(is_send(&e) && e.pkt.alias == ax && !e.pkt.topic_empty && e.pkt.topic0 == byte_of(kx), "[C13] the PUBLISH goes out with its topic and the alias");
+        r[ax as usize] = byte_of(kx); // a conformant receiver binds the alias now
+    }
+    // the sender's table must equal what the receiver now holds
+    let t = c.topic_alias_send.as_ref().unwrap();
+    let mut q: u16 = 1;
+    while q <= 3 {
+        let got = t.peek(q).map(|s| s.as_bytes()[0]).unwrap_or(0);
+        assert!(got == r[q as usize], "[C13] sender-side alias table equals the bindings the receiver holds");
+        q += 1;
+    }
+    core::mem::forget(ev);
+    core::mem::forget(c);
+}
+
+// empty topic + alias: only sent for an alias bound on this connection; auto-replace uses a live binding
+#[kani::proof]
+#[kani::unwind(7)]
+#[kani::stub(core::str::from_utf8, utf8_model)]
+fn st_send_publish_v5_alias_resolve() {
+    set_detail(true);
+    let mut c = fam_client_connected(Version::V5_0);
+    let has_table: bool = kani::any();
+    let mut r: [u8; 4] = [0; 4];
+    if has_table {
+        let mut tas = TopicAliasSend::new(3);
+        let k1: u8 = kani::any();
+        let a1: u16 = kani::any();
+        kani::assume(k1 <= 1 && a1 >= 1 && a1 <= 3);
+        tas.insert_or_update(topic_of(k1), a1);
+        r[a1 as usize] = byte_of(k1);
+        c.topic_alias_send = Some(tas);
+    }
+    let auto_replace: bool = kani::any();
+    c.auto_replace_topic_alias_send = auto_replace;
+    let pre = tm_of(&c);
+    if auto_replace {
+        // plain PUBLISH of topic kx: may be rewritten to (empty topic, alias)
+        let kx: u8 = kani::any();
+        kani::assume(kx <= 1);
+        let body: [u8; 5] = [0, 1, byte_of(kx), 0, 0x55];
+        let arc: crate::mqtt::common::Arc<[u8]> = crate::mqtt::common::Arc::from(&body[..]);
+        let p = v5_0::GenericPublish::<u16>::parse(0, arc).unwrap().0;
+        let ev = c.process_send_v5_0_publish(p);
+        monitor(pre, &ev, &c);
+        let e = sm(&ev, 0);
+        assert!(is_send(&e), "[C11] QoS0 PUBLISH sent when connected");
+        if e.pkt.topic_empty {
+            assert!(e.pkt.alias >= 1 && e.pkt.alias <= 3 && r[e.pkt.alias as usize] == byte_of(kx), "[C13] an automatically replaced topic resolves at the receiver to the topic the application asked for");
+        } else {
+            assert!(e.pkt.topic0 == byte_of(kx), "[C13] otherwise the topic is sent as given");
+        }
+        core::mem::forget(ev);
+    } else {
+        let ax: u16 = kani::any();
+        kani::assume(ax >= 1);
+        let p = match mk_pub5_alias(0, ax) {
+            Some(p) => p,
+            None => return,
+        };
+        kani::cover!(has_table && ax <= 3 && r[ax as usize] != 0, "empty topic with a bound alias");
+        kani::cover!(has_table && ax <= 3 && r[ax as usize] == 0, "empty topic with an unbound alias");
+        let ev = c.process_send_v5_0_publish(p);
+        monitor(pre, &ev, &c);
+        let bound = has_table && ax <= 3 && r[ax as usize] != 0;
+        assert!((count(&ev, is_send) == 1) == bound, "[C13] an empty topic name is only sent with an alias that an earlier PUBLISH on this connection bound");
+        if !bound {
+            assert!(count(&ev, is_any_err) == 1, "[C13] otherwise the send is refused with an error");
+        }
+        core::mem::forget(ev);
+    }
+    core::mem::forget(c);
+}
+
+// receive side: aliased PUBLISH delivered with the bound topic or rejected as Topic Alias invalid
+#[kani::proof]
+#[kani::unwind(7)]
+#[kani::stub(core::str::from_utf8, utf8_model)]
+fn st_recv_publish_v5_alias() {
+    set_detail(true);
+    let mut c = fam_server_connected(Version::V5_0);
+    let has_table: bool = kani::any();
+    let k1: u8 = kani::any();
+    let a1: u16 = kani::any();
+    kani::assume(k1 <= 1 && a1 >= 1 && a1 <= 3);
+    if has_table {
+        let mut t = TopicAliasRecv::new(3);
+        t.insert_or_update(topic_of(k1), a1);
+        c.topic_alias_recv = Some(t);
+    }
+    let ax: u16 = kani::any();
+    kani::assume(ax >= 1);
+    let with_topic: bool = kani::any();
+    let kx: u8 = kani::any();
+    kani::assume(kx <= 1);
+    let pre = tm_of(&c);
+    let raw = if with_topic {
+        pbh::verif_raw(0x30, &[0, 1, byte_of(kx), 3, 0x23, (ax >> 8) as u8, ax as u8, 0x55])
+    } else {
+        pbh::verif_raw(0x30, &[0, 0, 3, 0x23, (ax >> 8) as u8, ax as u8, 0x55])
+    };
+    let ev = c.process_recv_v5_0_publish(raw);
+    monitor(pre, &ev, &c);
+    let in_range = has_table && ax <= 3;
+    if with_topic {
+        if in_range {
+            assert!(count(&ev, is_recv) == 1 && c.topic_alias_recv.as_ref().unwrap().get(ax).map(|s| s.as_bytes()[0]) == Some(byte_of(kx)), "[C13] a PUBLISH with topic and alias is delivered and binds the alias");
+        } else {
+            assert!(count(&ev, is_recv) == 0 && count(&ev, |e| is_err(e, MqttError::TopicAliasInvalid)) == 1, "[C13] an alias outside 1..=Topic Alias Maximum is rejected as Topic Alias invalid");
+        }
+    } else {
+        let bound = in_range && ax == a1;
+        if bound {
+            let n = ev.len();
+            let e = sm(&ev, n - 1);
+            assert!(is_recv(&e) && e.pkt.topic0 == byte_of(k1) && !e.pkt.topic_empty, "[C13] an aliased PUBLISH is delivered with the topic bound on this connection");
+        } else {
+            assert!(count(&ev, is_recv) == 0 && count(&ev, |e| is_err(e, MqttError::TopicAliasInvalid)) == 1, "[C13] an unknown alias is rejected as Topic Alias invalid");
+            let n = ev.len();
+            assert!(is_send(&sm(&ev, n - 3)) && sm(&ev, n - 3).pkt.rc == 0x94 && is_close(&sm(&ev, n - 2)), "[C13,C19] DISCONNECT Topic Alias invalid, then close");
+        }
+    }
+    core::mem::forget(ev);
+    core::mem::forget(c);
+}
+
+// v5.0 CONNECT without properties received by a server (keep-alive arithmetic at full width)
+#[kani::proof]
+#[kani::unwind(7)]
+#[kani::stub(core::str::from_utf8, utf8_model)]
+fn st_recv_connect_v5_server() {
+    let mut c = SC::new(Version::V5_0);
+    let old_ka: u16 = kani::any();
+    c.pingreq_recv_timeout_ms = old_ka as u64 * 1000 * 3 / 2;
+    let ka: u16 = kani::any();
+    let clean: bool = kani::any();
+    let b: [u8; 14] = [0, 4, b'M', b'Q', b'T', b'T', 5, (clean as u8) << 1, (ka >> 8) as u8, ka as u8, 0, 0, 1, b'c'];
+    let raw = pbh::verif_raw(0x10, &b);
+    let pre = tm_of(&c);
+    kani::cover!(ka == 65535, "maximum keep-alive");
+    let ev = c.process_recv_v5_0_connect(raw);
+    monitor(pre, &ev, &c);
+    assert!(c.status == ConnectionStatus::Connecting && count(&ev, is_recv) == 1, "[C17] CONNECT accepted while disconnected");
+    if ka == 0 {
+        assert!(ev.len() == 1 && !c.pingreq_recv_set, "[C15,C10] a server never arms the receive timer for keep-alive 0 (whatever an earlier connection used)");
+    } else {
+        assert!(ev.len() == 2 && is_reset(&sm(&ev, 0), TimerKind::PingreqRecv, ka as u64 * 1500), "[C15] a server arms the 1.5 x keep-alive receive timer on CONNECT");
+    }
+    assert!(c.topic_alias_send.is_none() && c.publish_send_max.is_none() && c.maximum_packet_size_send == MQTT_PACKET_SIZE_NO_LIMIT, "[C10] nothing negotiated without properties");
+    core::mem::forget(ev);
+    core::mem::forget(c);
+}
+
+// restore_packets, v5.0 packets
+#[kani::proof]
+#[kani::unwind(7)]
+#[kani::stub(core::str::from_utf8, utf8_model)]
+fn st_restore_packets_v5() {
+    let mut c = CC::new(Version::V5_0);
+    let i: u16 = kani::any();
+    let j: u16 = kani::any();
+    let k: u16 = kani::any();
+    kani::assume(i != 0 && j != 0 && k != 0);
+    kani::assume(i != j && j != k && i != k);
+    let mut v: Vec<GenericStorePacket<u16>> = Vec::new();
+    v.push(mk_pub5(1, i, true).try_into().unwrap());
+    v.push(mk_pub5(2, j, true).try_into().unwrap());
+    v.push(v5_0::GenericPubrel::<u16>::builder().packet_id(k).build().unwrap().try_into().unwrap());
+    c.restore_packets(v);
+    assert!(sth::len(&c.store) == 3 && sth::id_at(&c.store, 0) == Some(i) && sth::id_at(&c.store, 1) == Some(j) && sth::id_at(&c.store, 2) == Some(k), "[C16] restored packets keep their order");
+    assert!(c.pid_man.is_used_id(i) && c.pid_man.is_used_id(j) && c.pid_man.is_used_id(k), "[C16] restored identifiers are in use");
+    assert!(c.pid_puback.contains(&i) && c.pid_pubrec.contains(&j) && c.pid_pubcomp.contains(&k), "[C16] each restored packet waits for the acknowledgement of its kind");
+    assert!(c.pid_puback.len() == 1 && c.pid_pubrec.len() == 1 && c.pid_pubcomp.len() == 1, "[C16] nothing else is waited for");
+    core::mem::forget(c);
+}
+
+// send_stored under a peer limit: oversize stored packets (PUBLISH and PUBREL alike) are dropped and released
+#[kani::proof]
+#[kani::unwind(7)]
+#[kani::stub(core::str::from_utf8, utf8_model)]
+fn st_send_stored_limit_v5() {
+    set_detail(true);
+    let mut c = fam_client_connected(Version::V5_0);
+    c.need_store = true;
+    let i: u16 = kani::any();
+    let k: u16 = kani::any();
+    kani::assume(i != 0 && k != 0 && i != k);
+    c.pid_man.register_id(i).unwrap();
+    c.pid_man.register_id(k).unwrap();
+    c.pid_puback.insert(i);
+    c.pid_pubcomp.insert(k);
+    c.store.add(mk_pub5(1, i, true).try_into().unwrap()).unwrap(); // 9 bytes
+    c.store.add(v5_0::GenericPubrel::<u16>::builder().packet_id(k).build().unwrap().try_into().unwrap()).unwrap(); // 4 bytes
+    let l: u32 = kani::any();
+    kani::assume(l >= 1);
+    c.maximum_packet_size_send = l;
+    kani::cover!(l == 3, "both oversize");
+    kani::cover!(l == 8, "only the PUBLISH oversize");
+    let ev = c.send_stored();
+    let mut n = 0;
+    let mut idx = 0;
+    while idx < ev.len() {
+        let e = sm(&ev, idx);
+        if e.kind == K_SEND {
+            assert!(e.pkt.size as u64 <= l as u64, "[C14] no retransmitted stored packet exceeds the peer's Maximum Packet Size");
+            n += 1;
+        }
+        idx += 1;
+    }
+    assert!(n == (l >= 9) as usize + (l >= 4) as usize, "[C06] every stored packet within the limit is retransmitted");
+    assert!(sth::has(&c.store, i) == (l >= 9) && sth::has(&c.store, k) == (l >= 4), "[C14] oversize stored packets are dropped from the store");
+    assert!(c.pid_man.is_used_id(i) == (l >= 9) && c.pid_man.is_used_id(k) == (l >= 4), "[C14] the identifier of a dropped stored packet is released");
+    assert!(count(&ev, |e| is_released(e, i)) == (l < 9) as usize && count(&ev, |e| is_released(e, k)) == (l < 4) as usize, "[C08] each release announced exactly once");
+    core::mem::forget(ev);
+    core::mem::forget(c);
+}
